@@ -1335,8 +1335,13 @@ func (c *IPAMController) garbageCollectKnownLeaks() error {
 			logc.Info("Leaked IP has been resurrected after querying latest state")
 			delete(c.confirmedLeaks, id)
 			a.markValid()
-			continue
 		}
+	}
+
+	// Only look at handles once every confirmed leak has had its final check above: the handle check
+	// reads the confirmedLeak flags of the handle's other allocations, which must not be stale.
+	for _, a := range c.confirmedLeaks {
+		logc := log.WithFields(a.fields())
 
 		// Ensure that all of the IPs with this handle are in fact leaked.
 		if !c.handleTracker.isConfirmedLeak(a.handle) {
